@@ -20,8 +20,8 @@
   Core Lean only (linked into `fcdrv`).
 -/
 import FcModel.Ladder
-namespace Fc.Spec
-open Fc
+namespace Fc.C02.Spec
+open Fc Fc.C02
 
 /-! ### Sep: margins, float side conditions, cluster keys -/
 
@@ -51,6 +51,51 @@ def column (rows : List (List Int)) (j : Nat) : List Int := rows.map (rowKey j)
 
 def maxAbsRows (rows : List (List Int)) : Nat := maxAbsCoord rows
 
+end Fc.C02.Spec
+
+/-! ### items, cluster-key vectors (shared by the spec and by the theorems) -/
+namespace Fc.C02
+open Fc.C02.Spec
+
+/-- cluster key of column `j` of an item, relative to the values occurring in `l` -/
+def colKey {α : Type} (A : Nat) (key : Nat → α → Int) (l : List α) (j : Nat) (a : α) : Int :=
+  clusterKey A (l.map (key j)) (key j a)
+
+/-- key vector of the columns j … j+fuel-1 -/
+def kvec {α : Type} (K : Nat → α → Int) : Nat → Nat → α → List Int
+  | 0, _, _ => []
+  | fuel + 1, j, a => K j a :: kvec K fuel (j + 1) a
+
+abbrev pkey (j : Nat) (it : PItem) : Int := rowKey j it.2
+abbrev ckey (j : Nat) (x : PItem × List Int) : Int := rowKey j x.2
+
+/-- the (index, coordinates) items `_sorting_points_indices` permutes -/
+def pitems (m : Mesh) : List PItem := (List.range m.points.length).zip m.points
+
+/-- centres of the cells adjacent to a point: the `argsort`-independent part of `minCentre`;
+    `none` = no adjacent cell (the code raises) or a centre is not finite -/
+def centresOf (m : Mesh) (p : Nat) : Option (List (List Int)) :=
+  if (adjacentCells m p).isEmpty then none else (adjacentCells m p).mapM (cellCentre m.points)
+
+/-- the min-centre of a point, `[]` when the code would raise -/
+def mcD (as : List Int → List Nat) (t : MeshTol) (m : Mesh) (it : PItem) : List Int :=
+  (minCentre as t m it.1).getD []
+
+/-- coordinate cluster keys of the point items -/
+def KC (A : Nat) (m : Mesh) : Nat → PItem → Int := colKey A pkey (pitems m)
+
+/-- cluster keys of centre rows, relative to the candidate centres `cands` -/
+def KG (A : Nat) (cands : List (List Int)) : Nat → List Int → Int := colKey A rowKey cands
+
+/-- cluster keys of the minimal adjacent cell centre of a point item -/
+def KM (A : Nat) (cands : List (List Int)) (as : List Int → List Nat) (t : MeshTol) (m : Mesh) :
+    Nat → PItem → Int := fun j it => KG A cands j (mcD as t m it)
+
+end Fc.C02
+
+namespace Fc.C02.Spec
+open Fc Fc.C02
+
 /-! ### Sep / Distinguishable for one mesh as it enters `sort_points` -/
 
 def finiteOk (m : Mesh) : Bool :=
@@ -62,15 +107,6 @@ def finiteOk (m : Mesh) : Bool :=
 def keyVec (A : Nat) (rows : List (List Int)) (dim : Nat) (row : List Int) : List Int :=
   (List.range dim).map fun j => clusterKey A (column rows j) (rowKey j row)
 
-/-- the points that have a coincident partner (same coordinate key vector) -/
-def coincident (kv : List (List Int)) : List Nat :=
-  let ik := kv.zipIdx
-  (ik.filter fun (k, p) => ik.any fun (k', q) => q != p && k' == k).map (·.2)
-
-/-- centres of the cells adjacent to a point (empty when one is not finite) -/
-def centresAround (m : Mesh) (p : Nat) : List (List Int) :=
-  ((adjacentCells m p).mapM (cellCentre m.points)).getD []
-
 def lexLt : List Int → List Int → Bool
   | a :: as, b :: bs => a < b || (a == b && lexLt as bs)
   | _, _ => false
@@ -81,6 +117,46 @@ def lexMin : List (List Int) → Option (List Int)
     | none => some a
     | some b => some (if lexLt b a then b else a)
 
+/-- what the hypotheses and the canonical order are computed from -/
+structure PointData where
+  kc : List (PItem × List Int)            -- every point item with its coordinate key vector
+  dups : List (PItem × List Int)          -- the items that have a coincident partner
+  cands : List (List Int)                 -- candidate centres: cells around coincident points
+  M : Nat                                 -- bound of all magnitudes involved
+
+def pointData (A : Nat) (m : Mesh) : PointData :=
+  let kc := (pitems m).map fun it => (it, kvec (KC A m) m.dim 0 it)
+  let dups := kc.filter fun x => kc.any fun y => y.1 != x.1 && y.2 == x.2
+  let cands := dups.flatMap fun x => (centresOf m x.1.1).getD []
+  ⟨kc, dups, cands, max (maxAbsCoord m.points) (maxAbsRows cands)⟩
+
+/-- coincident points are told apart by the key vectors of their minimal adjacent cell centres
+    (evaluated with the model's own `minCentre` under the stable argsort; by
+    `C02_min_centre_tie_independent` any other argsort gives the same key vectors) -/
+def distinguishable (t : MeshTol) (A : Nat) (m : Mesh) (d : PointData) : Bool :=
+  let ks := d.dups.map fun x => (x.1, x.2, kvec (KM A d.cands argsortStable t m) m.dim 0 x.1)
+  ks.all fun x => ks.all fun y => x.1 == y.1 || x.2.1 != y.2.1 || x.2.2 != y.2.2
+
+/-- `Sep` for the point sort of mesh `m` under tolerances `t` (everything but distinguishability) -/
+def pointSep (t : MeshTol) (m : Mesh) : Bool :=
+  let A := sepA t
+  let B := sepB t
+  let d := pointData A m
+  decide (1 ≤ m.dim) &&
+  m.points.all (fun r => decide (r.length = m.dim)) &&
+  boundsOk t A B d.M &&
+  ((List.range m.dim).all fun j =>
+    sepCol A B ((pitems m).map (pkey j)) && (pitems m).all fun a => decide ((pkey j a).natAbs ≤ d.M)) &&
+  ((List.range m.dim).all fun j =>
+    sepCol A B (d.cands.map (rowKey j)) && d.cands.all fun c => decide ((rowKey j c).natAbs ≤ d.M)) &&
+  d.dups.all fun x => (centresOf m x.1.1).isSome
+
+/-- `Sep ∧ Distinguishable` for the point sort of mesh `m` under tolerances `t` -/
+def pointHyp (t : MeshTol) (m : Mesh) : Bool :=
+  finiteOk m && pointSep t m && distinguishable t (sepA t) m (pointData (sepA t) m)
+
+/-! ### the canonical order of the points (no `argsort` in it) -/
+
 structure PointSpec where
   kv : List (List Int)                    -- coordinate key vector per point
   dup : List Nat                          -- coincident points
@@ -88,26 +164,11 @@ structure PointSpec where
   mck : List (Nat × List Int)             -- minimal centre key vector of every coincident point
 
 def pointSpec (A : Nat) (m : Mesh) : PointSpec :=
-  let kv := m.points.map (keyVec A m.points m.dim)
-  let dup := coincident kv
-  let cands := dup.flatMap (centresAround m)
-  let mck := dup.map fun p => (p, (lexMin ((centresAround m p).map (keyVec A cands m.dim))).getD [])
-  ⟨kv, dup, cands, mck⟩
-
-/-- `Sep ∧ Distinguishable` for the point sort of mesh `m` under tolerances `t` -/
-def pointHyp (t : MeshTol) (m : Mesh) : Bool :=
-  let A := sepA t
-  let B := sepB t
-  let s := pointSpec A m
-  finiteOk m && 0 < m.dim &&
-  m.points.all (·.length == m.dim) &&
-  boundsOk t A B (max (maxAbsCoord m.points) (maxAbsRows s.cands)) &&
-  ((List.range m.dim).all fun j => sepCol A B (column m.points j)) &&
-  ((List.range m.dim).all fun j => sepCol A B (column s.cands j)) &&
-  s.dup.all (fun p => !(adjacentCells m p).isEmpty) &&
-  -- coincident points are told apart by their minimal centre keys
-  (let info := s.mck.map fun (p, c) => (p, s.kv.getD p [], c)
-   info.all fun (p, kp, cp) => info.all fun (q, kq, cq) => p == q || kp != kq || cp != cq)
+  let d := pointData A m
+  let dup := d.dups.map (·.1.1)
+  let mck := dup.map fun p =>
+    (p, (lexMin (((centresOf m p).getD []).map (keyVec A d.cands m.dim))).getD [])
+  ⟨d.kc.map (·.2), dup, d.cands, mck⟩
 
 /-- the canonical order relation on point indices -/
 def specLe (s : PointSpec) (p q : Nat) : Bool :=
@@ -180,4 +241,4 @@ def ladderPasses : LadderRes → Bool
   | .done _ o => allPassed o
   | .raised => false
 
-end Fc.Spec
+end Fc.C02.Spec
